@@ -346,6 +346,9 @@ func Near(a, b float64) bool {
 		// equal infinities (a float32 distance that overflowed on both sides), or 0 * Inf on both sides
 		return true
 	}
+	if math.IsInf(a, 0) || math.IsInf(b, 0) || math.IsNaN(a) || math.IsNaN(b) {
+		return false // an infinity (or NaN) is near nothing but itself: the tolerance of an infinity is infinite
+	}
 	return math.Abs(a-b) <= tol(a)+tol(b)
 }
 
@@ -423,7 +426,8 @@ func RankCheck(o *Obs, tag string, env MetricEnv, m *Model, prop string, query [
 		}
 		prev = got
 		kth = got
-		if hs := float64(r.HybridScore); !Near(hs, -float64(w)*got) {
+		// the hybrid score is a float32 as well: -weight*distance beyond its range is an infinity
+		if hs := float64(r.HybridScore); !Near(hs, f32range(-float64(w)*got)) {
 			o.Fail(tag+"-wrong-hybrid-score", "%s: point %d hybrid score %g, want -weight*distance = %g", desc, idx, hs, -float64(w)*got)
 		}
 	}
